@@ -13,7 +13,7 @@ PROP = {
     "level_text": "Generated-input exploration of every anchored decoder and the stateful receivers behind them: "
                   "frame/datagram decoders, fragment splitter and reassembler, server and client UDP session managers (synchronously and with the real "
                   "Run/receiveLoop goroutines), QUIC-Initial/TLS/HTTP sniffer (including correctly protected Initials with hostile plaintext built by the "
-                  "harness's own RFC 9001 encoder), Salamander/Gecko packet conns, punch/STUN demultiplexer, Punch and Discover loops, speed-test server and "
+                  "harness's own RFC 9001 encoder), Salamander/Gecko packet conns, punch/STUN demultiplexer, Punch and Discover loops, the demultiplexer composed with DiscoverWithDemux and ServerPuncher.Respond (datagram now, discovery later and interleaved), speed-test server and "
                   "client. The oracle is only: no panic, the call returns, and a following well-formed input is still handled. Thorough adds native fuzzing "
                   "of 11 byte-level targets. Exploration only, not a proof.",
     "level_note": "Third-party parsers (utls ClientHello, pion/stun, net/http) are exercised only through hysteria's entry points. Goroutine panics in the "
@@ -74,6 +74,7 @@ PROP = {
         {"name": "TestVerifC03_PunchConnReadFrom", "unit": R, "quick": 3000, "thorough": 30000, "shards_thorough": 4},
         {"name": "TestVerifC03_PunchLoop", "unit": R, "quick": 4000, "thorough": 40000, "shards_thorough": 2},
         {"name": "TestVerifC03_STUNDiscover", "unit": R, "quick": 5000, "thorough": 40000, "shards_thorough": 2},
+        {"name": "TestVerifC03_RealmDemuxRounds", "unit": R, "quick": 2000, "thorough": 15000, "shards_thorough": 4},
         {"name": "FuzzVerifC03_RealmDatagram", "unit": R, "kind": "fuzz", "fuzz_secs": 90},
         # extras/outbounds/speedtest
         {"name": "TestVerifC03_SpeedtestServer", "unit": T, "quick": 2500, "thorough": 15000, "shards_thorough": 4},
